@@ -24,10 +24,12 @@ def work(patch):
         shutil.rmtree(d, ignore_errors=True)
 
 if __name__ == '__main__':
-    patches = sorted(glob.glob('/verif/seeded/*/patch.diff'))
+    # optional arguments: substrings of seed names; only those seeds are re-judged and merged into the stored table
+    only = sys.argv[1:]
+    patches = sorted(p for p in glob.glob('/verif/seeded/*/patch.diff') if not only or any(o in p for o in only))
     with ProcessPoolExecutor(16) as ex:
         rows = list(ex.map(work, patches))
-    out = {}
+    out = json.load(open('/verif/seeded/MATRIX.json')) if only and os.path.exists('/verif/seeded/MATRIX.json') else {}
     for name, st, res in rows:
         own = name.split('_')[0]
         catch = sorted(p for p, (rc, f) in res.items() if rc == 1)
